@@ -99,6 +99,14 @@ def iter_spec(rng: random.Random, name: str, maxlen: int = 8) -> dict:
     if name == "accumulate":
         spec = {"tool": name, "srcs": [keys_seq(rng, maxlen)], "fns": [rng.choice([None, "add", "pickmax", "first", "second"])],
                 "params": {}}
+        if rng.random() < 0.2:
+            # mutable items: running totals must be new objects, the inputs untouched
+            spec["raw"] = True
+            spec["srcs"] = [[["L", rng.randrange(3)] for _ in range(rng.randint(0, min(maxlen, 5)))]]
+            spec["fns"] = [rng.choice([None, None, "add"])]
+            if rng.random() < 0.4:
+                spec["params"]["initial"] = ["raw", ["L", 9]]
+            return spec
         r = rng.random()
         if r < 0.35:
             spec["params"]["initial"] = ["item", rng.randrange(4), "init"]
